@@ -44,9 +44,20 @@ type FuncContract struct {
 	Invariants map[int][]Clause
 	Decreases  map[int]Clause
 	Asserts    []SiteAssert
+	NI         []NIClause
 	Ghosts     []string // per-function hints / options
 	File       string
 	Line       int
+}
+
+// NIClause: when Cond holds at exit, the results do not depend on the entry
+// contents of the memory named by Item (a 2-safety clause).
+type NIClause struct {
+	Label string
+	Text  string
+	Cond  Expr
+	Item  ModItem
+	Line  int
 }
 
 // SpecFunc is an uninterpreted or defined spec function.
@@ -237,6 +248,32 @@ func ParseFile(path, pkgPath string) (*File, error) {
 				return nil, fail(err)
 			}
 			cur.Asserts = append(cur.Asserts, SiteAssert{Where: f[0], Needle: needle, Clause: c})
+		case "noninterference":
+			if cur == nil {
+				return nil, fail(fmt.Errorf("noninterference outside func"))
+			}
+			text := rest
+			ni := NIClause{Line: ln}
+			if m := reLabel.FindStringSubmatch(text); m != nil {
+				ni.Label = m[1]
+				text = text[len(m[0]):]
+			}
+			ni.Text = text
+			j := strings.LastIndex(text, " : ")
+			if j < 0 {
+				return nil, fail(fmt.Errorf("noninterference needs 'cond : item'"))
+			}
+			ce, err := ParseExpr(strings.TrimSpace(text[:j]))
+			if err != nil {
+				return nil, fail(err)
+			}
+			ie, err := ParseExpr(strings.TrimSpace(text[j+3:]))
+			if err != nil {
+				return nil, fail(err)
+			}
+			ni.Cond = ce
+			ni.Item = ModItem{Text: strings.TrimSpace(text[j+3:]), E: ie}
+			cur.NI = append(cur.NI, ni)
 		case "option":
 			if cur == nil {
 				return nil, fail(fmt.Errorf("option outside func"))
